@@ -58,7 +58,7 @@ static void* worker(void* arg) {
     c->t1 = now_ns();
     if (t->sched == 2) sched_yield();
     c->hash = r.skipped ? 0 : r.out_hash;
-    c->bad = r.canary_bad | (r.src_modified << 1);
+    c->bad = r.canary_bad | (r.src_modified << 1) | (r.fpenv_changed << 2);  // (a changed FP environment stays with the thread and is inherited by the threads it creates)
     snprintf(c->msg, sizeof c->msg, "%s", r.msg);
   }
   return 0;
@@ -169,7 +169,7 @@ static void conc_case(int warm, unsigned dimsel, int T, int rounds, unsigned rep
       ncalls++;
       if (s.skipped) continue;
       if (s.out_hash != c->hash && nbad++ < 3) viol("differential", "%s: result under %d concurrent threads differs from the same call run alone (N=%" PRIu64 ", thread %d call %d)", OPS[c->op].name, T, envs[c->envi]->N, t, i);
-      if (c->bad && nbad++ < 3) viol(c->bad & 1 ? "canary" : "snapshot", "%s under concurrency: %s", OPS[c->op].name, c->msg);
+      if (c->bad && nbad++ < 3) viol(c->bad & 1 ? "canary" : (c->bad & 2 ? "snapshot" : "fpenv"), "%s under concurrency: %s", OPS[c->op].name, c->msg);
       // a *_simple function must also be the function its explicit-table twin computes (same arguments from the same seed)
       if (warm && OPS[c->op].twin) {
         const opdef_t* tw = op_lookup(OPS[c->op].twin);
@@ -374,6 +374,37 @@ static void allocation_case(uint64_t N, int T, unsigned rep) {
 // thread churn: waves of short-lived threads (each lives for two calls per entry point, then exits; hundreds of threads
 // per case): whatever the library keeps per thread must be set up correctly in every new thread and must not outlive it
 // in a way that hurts the threads that come later
+typedef struct {
+  const char* const* names;
+  int n;
+  const env_t* e;
+  uint64_t seed;
+  int stop;
+  uint64_t wrong, calls;
+  int first_bad;
+} churn_companion_t;
+static void* churn_companion(void* arg) {
+  churn_companion_t* c = arg;
+  uint64_t want[64];
+  int ops[64];
+  for (int i = 0; i < c->n; i++) {
+    ops[i] = op_find(c->names[i]);
+    opres_t r;
+    op_exec(&OPS[ops[i]], c->e, c->seed + (uint64_t)i, 0, 1, 0, &r);
+    want[i] = r.skipped ? 0 : r.out_hash;
+  }
+  while (!__atomic_load_n(&c->stop, __ATOMIC_ACQUIRE))
+    for (int i = 0; i < c->n; i++) {
+      opres_t r;
+      op_exec(&OPS[ops[i]], c->e, c->seed + (uint64_t)i, (int)(c->calls & 3), (unsigned)c->calls, 0, &r);
+      c->calls++;
+      if (!r.skipped && r.out_hash != want[i]) {
+        if (!c->wrong) c->first_bad = ops[i];
+        c->wrong++;
+      }
+    }
+  return 0;
+}
 static void thread_churn_case(uint64_t N, unsigned rep) {
   if (!case_begin("concurrent:thread churn|waves of 8 short-lived threads", "N=%" PRIu64 " rep=%u", N, rep)) return;
   tsan_reports_in_case = 0;
@@ -389,11 +420,19 @@ static void thread_churn_case(uint64_t N, unsigned rep) {
   }
   uint64_t calls = 0, bad = 0;
   char msg[240] = "";
-  for (int wave = 0; wave < (N <= 1024 ? 6 : 2); wave++) bad += ops_concurrent_check(names, n, e, 8, 2, G.seed * 31337 + rep * 101 + (uint64_t)wave, msg, sizeof msg, &calls);
+  // a companion thread that lives through all the waves and keeps calling the same entry points with its own arguments
+  churn_companion_t comp = {names, n, e, G.seed * 977 + rep, 0, 0, 0};
+  pthread_t ctid;
+  pthread_create(&ctid, 0, churn_companion, &comp);
+  for (int wave = 0; wave < (N <= 1024 ? 12 : 3); wave++) bad += ops_concurrent_check(names, n, e, 8, 2, G.seed * 31337 + rep * 101 + (uint64_t)wave, msg, sizeof msg, &calls);
+  __atomic_store_n(&comp.stop, 1, __ATOMIC_RELEASE);
+  pthread_join(ctid, 0);
+  if (comp.wrong) viol("differential", "%s: a long-lived thread got other results than alone while %d short-lived threads came and went (%" PRIu64 " differing calls, N=%" PRIu64 ")", OPS[comp.first_bad].name, 12 * 8 * n, comp.wrong, N);
+  calls += comp.calls;
   if (bad) viol("differential", "%s (%" PRIu64 " differing calls across waves of short-lived threads)", msg, bad);
   if (tsan_reports_in_case) viol("tsan", "ThreadSanitizer produced %d report(s) during thread churn", tsan_reports_in_case);
   env_destroy(e);
-  cnt("short_lived_threads", (uint64_t)(N <= 1024 ? 6 : 2) * 8 * (uint64_t)n);
+  cnt("short_lived_threads", (uint64_t)(N <= 1024 ? 12 : 3) * 8 * (uint64_t)n);
   sample("%d entry points x waves of 8 threads that exit after two calls; %" PRIu64 " calls equal to their sequential re-run", n, calls);
   case_end(1);
 }
@@ -447,7 +486,7 @@ static void first_use_case(uint64_t N, int T, int cfg, unsigned rep) {
       op_exec(&OPS[c->op], envs[0], c->seed, c->prefill, c->mis, 0, &s);
       if (s.skipped) continue;
       if (s.out_hash != c->hash && nbad++ < 3) viol("differential", "%s: first use of fresh objects by %d threads at once differs from the same call run alone (N=%" PRIu64 ", thread %d, call %d)", OPS[c->op].name, T, N, t, i);
-      if (c->bad && nbad++ < 3) viol(c->bad & 1 ? "canary" : "snapshot", "%s at first use: %s", OPS[c->op].name, c->msg);
+      if (c->bad && nbad++ < 3) viol(c->bad & 1 ? "canary" : (c->bad & 2 ? "snapshot" : "fpenv"), "%s at first use: %s", OPS[c->op].name, c->msg);
     }
     for (int u = t + 1; u < T; u++)
       if (th[t].calls[0].t0 <= th[u].calls[0].t1 && th[u].calls[0].t0 <= th[t].calls[0].t1) first_overlap++;
